@@ -34,7 +34,8 @@ class C05(Prop):
                 if nodes and k < 0.6:
                     path, _v = rng.choice(nodes)
                     rc = rng.random() < 0.4
-                    ops.append([rng.choice(["del", "pop"]), X.render(cur, path, rng), rc])
+                    kind = rng.choice(["del", "pop"])
+                    ops.append([kind, X.render(cur, path, rng), rc] + ([rng.choice(["D", "D", "none", "same"])] if kind == "pop" else []))
                     metas.append({"path": list(path)})
                     cur = X.ref_del(cur, path, rc)
                 elif nodes and k < 0.8:
@@ -72,7 +73,7 @@ class C05(Prop):
                 expected_val = X.raw_get(obj, m["path"])
             r = X.apply_op(obj, op)
             if m.get("missing"):
-                if fail is None and (r != X.DFLT or not X.same(X.plain(obj), before)):
+                if fail is None and (not (isinstance(r, str) and r == X.DFLT) or not X.same(X.plain(obj), before)):
                     fail = "pop(%r) of a missing path returned %r / changed the tree" % (op[1], r)
                 continue
             ref = X.ref_set(ref, m["path"], op[2]) if op[0] == "set" else X.ref_del(ref, m["path"], bool(op[2]))
